@@ -11,3 +11,4 @@ INVARIANTS
   JoinHeightsAgree
   ExitHeightOne
   TailCallHeights
+  ReplBindingsSurvive
